@@ -307,11 +307,20 @@ fn cmd_sanitize(args: &[String]) -> i32 {
         run_case_guarded(prop.as_ref(), c, &mut ctx);
     }
     let v = ctx.to_json();
-    println!(
-        "SANITIZE-RESULT {}",
+    // one write call for the whole line: under -Zmiri-many-seeds several interpreted
+    // runs share the host's stdout and piecewise writes interleave
+    let line = format!(
+        "SANITIZE-RESULT {}\n",
         json!({"property": id, "cases": cases.len(), "evaluations": v["evaluations"], "violations": v["violations"],
                "inconclusive": v["inconclusive"], "counters": v["counters"]})
     );
+    {
+        use std::io::Write;
+        let mut so = std::io::stdout().lock();
+        let _ = so.flush();
+        let _ = so.write_all(line.as_bytes());
+        let _ = so.flush();
+    }
     // everything the run created must be gone before the leak checker looks
     drop(ctx);
     drop(cases);
